@@ -204,6 +204,8 @@ def retime(ctx, report, clause="1"):
     def ev(text, **local):
         return F.eval_in("pycaption.base", ast.parse(text, mode="eval").body, local)
     times = [(0, 2 * S), (2 * S, 4 * S), (3600 * S, 3602500000), (86399 * S, 86400 * S - 1)]
+    # (a third language whose captions are NOT in ascending order of start: which ones are dropped depends on each one's own start)
+    unordered = [(5 * S, 6 * S), (S, 2 * S), (7 * S, 8 * S), (2 * S, 3 * S)]
     skews = [1, 1.0, 1.1, 0.5, 4.0, 1.001, 1000 / 1001, 0.9995, 1.0004, 2]
     offsets = [0, 5 * S, -1, -3 * S, -3601 * S, 0.5, -7200 * S]
     bad_map, bad_drop, bad_keep = [], [], []
@@ -212,9 +214,9 @@ def retime(ctx, report, clause="1"):
         for off in offsets:
             n += 1
             langs = {}
-            for lang in ("en-US", "fr"):
+            for lang in ("en-US", "fr", "xx"):
                 caps = []
-                for i, (a, b) in enumerate(times if lang == "en-US" else times[1:]):
+                for i, (a, b) in enumerate(times if lang == "en-US" else times[1:] if lang == "fr" else unordered):
                     node = ev("CaptionNode.create_text(t)", t=f"{lang}{i}")
                     caps.append(ev("Caption(a, b, [n])", a=a, b=b, n=node))
                 langs[lang] = ev("CaptionList(c)", c=caps)
@@ -226,8 +228,8 @@ def retime(ctx, report, clause="1"):
                 continue
             except AnalysisError as e:
                 raise AnalysisError(f"adjust_caption_timing cannot be folded: {e}")
-            for lang in ("en-US", "fr"):
-                src_t = times if lang == "en-US" else times[1:]
+            for lang in ("en-US", "fr", "xx"):
+                src_t = times if lang == "en-US" else times[1:] if lang == "fr" else unordered
                 want = [(a * skew + off, b * skew + off, f"{lang}{i}") for i, (a, b) in enumerate(src_t)]
                 keep = [w for w in want if w[0] >= 0]
                 from .foldutil import captions_by_language
@@ -262,8 +264,29 @@ def retime(ctx, report, clause="1"):
                 if any(g != want for g in got) or not got:
                     bad_alias.append({"caption_set": label, "skew": skew, "offset": off, "language": lang, "times_of_the_shared_caption": got,
                                       "required": want})
+    # a set that holds the default language code next to a language WITHOUT captions: each language is adjusted from its own
+    # list - the empty one stays empty, the other one is adjusted once
+    default_lang = F.value("pycaption.base", "DEFAULT_LANGUAGE_CODE")
+    for first_lang, second_lang in ((default_lang, "xx"), ("xx", default_lang)):
+        n += 1
+        caps = [ev("Caption(a, b, [n])", a=2 * S, b=4 * S, n=ev("CaptionNode.create_text('one')")),
+                ev("Caption(a, b, [n])", a=6 * S, b=8 * S, n=ev("CaptionNode.create_text('two')"))]
+        cs = ev("CaptionSet({l1: CaptionList(c) if l1 == d else CaptionList([]), l2: CaptionList(c) if l2 == d else CaptionList([])})",
+                l1=first_lang, l2=second_lang, d=default_lang, c=caps)
+        try:
+            F.call_function(fn, [], {"offset": S, "rate_skew": 1}, self_value=cs)
+        except FoldRaise as e:
+            bad_alias.append({"caption_set": f"languages {first_lang!r} (and an empty one)", "raises": e.exc_name or str(e)})
+            continue
+        from .foldutil import captions_by_language
+        got = {l: [(c.attrs["start"], c.attrs["end"]) for c in lst] for l, lst in captions_by_language(cs, F, "adjust_caption_timing").items()}
+        want = {first_lang: [(3 * S, 5 * S), (7 * S, 9 * S)] if first_lang == default_lang else [],
+                second_lang: [(3 * S, 5 * S), (7 * S, 9 * S)] if second_lang == default_lang else []}
+        if got != want:
+            bad_alias.append({"caption_set": f"the default language {default_lang!r} with captions and a language 'xx' without", "offset": S,
+                              "times_by_language": got, "required": want})
     report.check(not bad_alias, "R-GRID", fn, "a Caption object the set holds twice (in two languages, or twice in one list) is retimed "
-                 "once: its start and end t become t*skew+offset", {"mismatches": bad_alias[:2]}, clause)
+                 "once: its start and end t become t*skew+offset; a language without captions stays empty next to the default language", {"mismatches": bad_alias[:2]}, clause)
     report.count("retime_configurations_folded", n)
     report.check(not bad_map, "R-GRID", fn, "every start and end t becomes t*skew+offset, in every language",
                  {"configurations": n, "skews": skews, "mismatches": bad_map[:2]}, clause)
